@@ -54,6 +54,14 @@ bool IdentityManager::TryAlias(const std::string& oldValue, const std::string& n
   }
 }
 
+void IdentityManager::ReserveAlias(const std::string& name) {
+  aliasGenerator.AddUID(name);
+}
+
+void IdentityManager::FreeAlias(const std::string& name) noexcept {
+  aliasGenerator.FreeUID(name);
+}
+
 bool IdentityManager::NeedNameChangeFor(const std::string& name, const CstType type) const {
   if (aliasGenerator.IsTaken(name)) {
     return true;
